@@ -4,6 +4,7 @@ import RtcVerif.Model.C17Vector
 import RtcVerif.Proofs.C17Vector
 import RtcVerif.Model.C17SinglePass
 import RtcVerif.Proofs.C17SinglePass
+import RtcVerif.Model.C17Code
 import Mathlib.Algebra.Order.Field.Rat
 import Mathlib.Algebra.Order.AbsoluteValue.Basic
 import Mathlib.Tactic.Linarith
@@ -342,5 +343,37 @@ example :
     rowsFeasible (keepRows P 0) [-1, 0] = true
       ∧ rowsFeasible (appendRows P 0) [-1, 0] = false ∧ rowsFeasible (appendRows P 0) [-1, 1] = false := by
   decide +kernel
+
+/-! ## the kernels in the shape of the source (targets of the generated modules `Gen/C17*.lean`) -/
+
+/-- the array arithmetic of `_get_linear_coefficients` yields the chord table the majorant theorems are about -/
+theorem code_table_is_chord_table (r : ℕ) (xs : List ℚ) : coeffsCode r xs = coeffs r xs :=
+  coeffsCode_eq r xs
+
+/-- a row `lin - a·eps - b ∈ [0, ∞)` of the linearised goal says `a·eps + b ≤ lin` -/
+theorem linRow_iff (ab : ℚ × ℚ) (eps lin : ℚ) : linRowFeasible ab eps lin = true ↔ lineAt ab eps ≤ lin := by
+  simp only [linRowFeasible, lineAt, decide_eq_true_eq]
+  constructor <;> intro h <;> linarith
+
+/-- the retained objective row admits the achieved value (for a non-negative relaxation) -/
+theorem objBnd_contains (fix : Bool) (v cr : ℚ) (hcr : 0 ≤ cr) :
+    C03.inBnd (objBnd fix v cr).1 (objBnd fix v cr).2 v = true := by
+  cases fix <;> simp [objBnd, C03.inBnd, EVal.le, hcr]
+
+/-- **re-solve = fresh instance** on the reset attributes: after the reset at the start of `optimize()`
+    every reset attribute has its fresh value whatever the previous state was -/
+theorem optimize_reset_independent (reset prev prev' : List (String × Fresh)) (k : String)
+    (hk : (reset.find? fun kv => kv.1 == k).isSome = true) :
+    lookup (applyReset reset prev) k = lookup (applyReset reset prev') k := by
+  unfold lookup applyReset
+  rw [List.find?_append, List.find?_append]
+  cases h : reset.find? fun kv => kv.1 == k with
+  | none => simp [h] at hk
+  | some a => simp
+
+example : lookup (applyReset gpmReset [("__constraint_store", .emptyList), ("other", .zero)]) "__constraint_store"
+      = some .perMember
+    ∧ lookup (applyReset gpmReset [("__constraint_store", .emptyList), ("other", .zero)]) "other" = some .zero := by
+  decide
 
 end RtcVerif.C17
